@@ -118,6 +118,29 @@ func updateMsg(mod, authority string, a map[string]string) sdk.Msg {
 	return nil
 }
 
+var verdictWord = map[string]string{hx.OK: "valid", hx.Rej: "invalid", hx.Panic: "panic"}
+
+// storedVerdict is the module's own Params.Validate applied to what the keeper returns
+func (r *R) storedVerdict(ctx sdk.Context, mod string) string {
+	class, _ := classOf(func() error {
+		switch mod {
+		case "coinswap":
+			return r.env.Coinswap.GetParams(ctx).Validate()
+		case "farm":
+			return r.env.Farm.GetParams(ctx).Validate()
+		case "htlc":
+			return r.env.HTLC.GetParams(ctx).Validate()
+		case "service":
+			return r.env.Service.GetParams(ctx).Validate()
+		case "token":
+			return r.env.Token.GetParams(ctx).Validate()
+		}
+		hx.Fail("unknown module %q", mod)
+		return nil
+	})
+	return verdictWord[class]
+}
+
 func classOf(f func() error) (class string, info string) {
 	defer func() {
 		if rec := recover(); rec != nil {
@@ -174,7 +197,8 @@ func (r *R) genesis(ctx sdk.Context, mod string, a map[string]string) string {
 	if os.Getenv("VERIF_DEBUG") != "" {
 		fmt.Fprintf(os.Stderr, "debug: genesis %s vg=%s(%s) ig=%s(%s)\n", mod, v, vinfo, i, iinfo)
 	}
-	return fmt.Sprintf("vg=%s ig=%s stored=%s", v, i, strings.ReplaceAll(after, " ", "|"))
+	pv, _ := classOf(func() error { return validateReal(mod, a) })
+	return fmt.Sprintf("vg=%s ig=%s pv=%s stored=%s", v, i, verdictWord[pv], strings.ReplaceAll(after, " ", "|"))
 }
 
 func (r *R) Exec(ctx sdk.Context, line string) (sdk.Context, string) {
@@ -190,7 +214,7 @@ func (r *R) Exec(ctx sdk.Context, line string) (sdk.Context, string) {
 		if os.Getenv("VERIF_DEBUG") != "" && class != hx.OK {
 			fmt.Fprintf(os.Stderr, "debug: %s -> %s %s\n", line, class, info)
 		}
-		return ctx, map[string]string{hx.OK: "valid", hx.Rej: "invalid", hx.Panic: "panic"}[class]
+		return ctx, verdictWord[class]
 	case "update":
 		auth := hx.Authority()
 		if a["sender"] != "authority" {
@@ -200,7 +224,7 @@ func (r *R) Exec(ctx sdk.Context, line string) (sdk.Context, string) {
 		if os.Getenv("VERIF_DEBUG") != "" && out.Class != hx.OK {
 			fmt.Fprintf(os.Stderr, "debug: %s -> %s %s\n", line, out.Class, out.Err)
 		}
-		return ctx, out.Class + " stored=" + strings.ReplaceAll(r.stored(ctx, mod), " ", "|")
+		return ctx, out.Class + " stored=" + strings.ReplaceAll(r.stored(ctx, mod), " ", "|") + " sv=" + r.storedVerdict(ctx, mod)
 	case "genesis":
 		return ctx, r.genesis(ctx, mod, a)
 	case "battery":
